@@ -10,9 +10,10 @@
      lvl >= 2: `&&` `||`,
      lvl >= 3: conditionals `?>` `!>` and else-chains `|>`,
      lvl >= 4: nested expressions `{ body }` whose body is one expression of
-               the fragment (no separators inside).
-   Side-effect blocks [ ], separators and `^~` are outside (the reference
-   parser Spec/Pratt.v is undefined on them).
+               the fragment (no separators inside),
+     lvl >= 5: re-apply `^~ e` (restarts the enclosing expression body).
+   Side-effect blocks [ ] and separators are outside (the reference parser
+   Spec/Pratt.v is undefined on them).
 
    [rtree_of_expr e off]: the reference tree (Spec/Pratt.v) of the tokens
    Spec/Printer.v prints for e, when the first token of e has index [off].
@@ -35,7 +36,8 @@ Fixpoint efrag (lvl : nat) (e : expr) : bool :=
   | ECond _ c a => Nat.leb 3 lvl && efrag lvl c && efrag lvl a
   | EElse l r => Nat.leb 3 lvl && efrag lvl l && efrag lvl r
   | ENested _ b => Nat.leb 4 lvl && efrag lvl b
-  | ESeq _ _ _ | ESide _ _ | EReapply _ => false
+  | EReapply x => Nat.leb 5 lvl && efrag lvl x
+  | ESeq _ _ _ | ESide _ _ => false
   end.
 
 (* number of tokens printed for e *)
@@ -77,11 +79,12 @@ Fixpoint rtree_of_expr (e : expr) (off : nat) : rtree :=
       else RSuf (hdef e) (off + ntoks x + 1) (rtree_of_expr x off)
   | EGroup x => RGroup BRound off (rtree_of_expr x (off + 1))
   | ENested _ b => RGroup BCurly off (rtree_of_expr b (off + 2))
+  | EReapply x => RPre (hdef e) off (rtree_of_expr x (off + 2))
   | EList Space l r =>
       RBin D_List None (rtree_of_expr l off) (rtree_of_expr r (off + ntoks l + 1))
   | EBin _ l r | EAnd l r | EOr l r | EList Comma l r | ECond _ l r | EElse l r =>
       RBin (hdef e) (Some (off + ntoks l + 1)) (rtree_of_expr l off) (rtree_of_expr r (off + ntoks l + 3))
-  | ESeq _ _ _ | ESide _ _ | EReapply _ => RAtom D_Drop off
+  | ESeq _ _ _ | ESide _ _ => RAtom D_Drop off
   end.
 
 (* the items (Spec/Pratt.v) of the printed tokens *)
@@ -93,10 +96,11 @@ Fixpoint eitems (e : expr) (off : nat) : list item :=
       else eitems x off ++ [ISuffix (hdef e) (off + ntoks x + 1)]
   | EGroup x => IOpen BRound off :: eitems x (off + 1) ++ [IClose BRound (off + 1 + ntoks x)]
   | ENested _ b => IOpen BCurly off :: eitems b (off + 2) ++ [IClose BCurly (off + 3 + ntoks b)]
+  | EReapply x => IPrefix (hdef e) off :: eitems x (off + 2)
   | EList Space l r => eitems l off ++ IBinary D_List None :: eitems r (off + ntoks l + 1)
   | EBin _ l r | EAnd l r | EOr l r | EList Comma l r | ECond _ l r | EElse l r =>
       eitems l off ++ IBinary (hdef e) (Some (off + ntoks l + 1)) :: eitems r (off + ntoks l + 3)
-  | ESeq _ _ _ | ESide _ _ | EReapply _ => []
+  | ESeq _ _ _ | ESide _ _ => []
   end.
 
 (* the definition the parser stores for an atom *)
@@ -120,6 +124,8 @@ Fixpoint rep (e : expr) (off : nat) (t : ntree) : Prop :=
       match t with NGroup BRound _ k a => k = off /\ rep x (off + 1) a | _ => False end
   | ENested _ b =>
       match t with NGroup BCurly _ k a => k = off /\ rep b (off + 2) a | _ => False end
+  | EReapply x =>
+      match t with NPre _ d k a => d = hdef e /\ k = off /\ rep x (off + 2) a | _ => False end
   | EList Space l r =>
       match t with
       | NBin _ d k tl tr => d = D_List /\ k = None /\ rep l off tl /\ rep r (off + ntoks l + 1) tr
@@ -131,9 +137,9 @@ Fixpoint rep (e : expr) (off : nat) (t : ntree) : Prop :=
           d = hdef e /\ k = Some (off + ntoks l + 1) /\ rep l off tl /\ rep r (off + ntoks l + 3) tr
       | _ => False
       end
-  | ESeq _ _ _ | ESide _ _ | EReapply _ => False
+  | ESeq _ _ _ | ESide _ _ => False
   end.
 
 (* the fragment the end-to-end theorem of C01 is stated for: all levels *)
-Definition LV : nat := 4.
+Definition LV : nat := 5.
 Definition frag_e2e (e : expr) : bool := efrag LV e.
